@@ -604,6 +604,16 @@ def _check_schema_gen(case, names, depth, option_bits, have_drv, n_adhoc, seed):
         if bad:
             rep.failures.append(Failure("nonconforming-result", "introspection result does not conform to the introspection types", inp, bad[:5], [], "C18 conforms"))
         results[bits] = data
+        # the public entry point with the same options (keywords) must be that very result: this is the function
+        # the property names; it hands the options over to get_introspection_query itself
+        try:
+            via = introspection_from_schema(schema, **o)
+        except Exception as e:  # noqa: BLE001
+            rep.failures.append(Failure("introspection_from_schema-raises", "introspection_from_schema raises on a valid schema", inp, f"{type(e).__name__}: {e}"[:300], "a result", "C18"))
+            continue
+        rep.evaluations += 1
+        if via != data:
+            rep.failures.append(Failure("introspection_from_schema-options-differ", "introspection_from_schema(s, **options) differs from executing get_introspection_query(**options)", inp, _first_diff(via, data), "the same result", "C18 introspect_restrict"))
     full = results.get(full_bits)
     if full is None:
         return rep
